@@ -21,7 +21,8 @@
     produces the whole-ring range (x, x) as its first sub-range, so the count measure does not
     decrease; exhaustive small-scope evaluation of the model and the correspondence runs with
     split factors 3..5 show termination, a proof would need a different measure). *)
-From ID Require Import Base.Bytes Model.Entry Model.Ranger Model.Put Proofs.RangerFacts Proofs.ConvergeFacts Proofs.SplitFacts Proofs.SessionConverge Proofs.TerminateFacts.
+From ID Require Import Base.Bytes Model.Entry Model.Ranger Model.Put Proofs.RangerFacts Proofs.ConvergeFacts Proofs.SplitFacts Proofs.SessionConverge Proofs.TerminateFacts Proofs.FsPutFacts Proofs.RefineFacts Proofs.SessionRefine.
+From ID Require Import Model.Tables Model.Bounds Model.FsStore.
 
 Theorem C01_step_content_partial : forall mss k status_of v S m,
   reduced S -> consistent (valid_values v (message_values m) ++ S) ->
@@ -71,6 +72,23 @@ Theorem C01_session_total : forall mss v A B,
     ssorted A' /\ ssorted B'.
 Proof. exact list_session_total. Qed.
 
+(** the same for the table-level stores the real sessions are compared with message by message
+    (several documents in one records table, scans through computed bounds): the session
+    terminates and both documents end up equal to the join *)
+Theorem C01_table_session_total : forall EH MAXF mss now ns TA TB,
+  wf_records TA -> wf_records TB ->
+  let A := fs_all ns TA in let B := fs_all ns TB in
+  reduced A -> reduced B -> consistent (A ++ B) ->
+  (forall e, In e (A ++ B) -> vsync EH MAXF now ns e MISSING = true) ->
+  exists TA' TB' ocA ocB tr,
+    session prefix_succ EH MAXF mss 2 (length A + length B + 3) now ns ns TA TB (mkOC 0 0) (mkOC 0 0)
+            (initial_message (fs_ops prefix_succ EH ns) TA) true [] = Some (TA', TB', ocA, ocB, tr) /\
+    (length tr <= length A + length B + 2)%nat /\
+    (forall x, In x (fs_all ns TA') <-> In x (join A B)) /\
+    (forall x, In x (fs_all ns TB') <-> In x (join A B)) /\
+    fs_all ns TA' = fs_all ns TB'.
+Proof. exact table_session_total. Qed.
+
 (** the fact about the split that convergence rests on: the sub-ranges cover the range *)
 Theorem C01_split_covers_range : forall k, 2 <= k -> forall S x y, ssorted S -> (2 <= length (rng S x y))%nat ->
   forall z, range_contains x y z = true ->
@@ -90,5 +108,6 @@ Proof. vm_compute. repeat split; auto. Qed.
 
 Print Assumptions C01_session_reaches_join.
 Print Assumptions C01_session_total.
+Print Assumptions C01_table_session_total.
 Print Assumptions C01_split_covers_range.
 Print Assumptions C01_session_example.
